@@ -260,9 +260,16 @@ def marker(versioned: bool, idx: int) -> bool:
 
 
 def _try_subclass(schemas, name, versioned):
+    route = SEL.get("route", "get")
+
     def go():
         ref = schemas.resolve(name)
-        cls = schemas.get(name, ref.version) if versioned else schemas.get(name)
+        if route == "get":
+            cls = schemas.get(name, ref.version) if versioned else schemas.get(name)
+        elif route == "getitem":  # group[name] / group[(name, version)]
+            cls = schemas[(name, ref.version)] if versioned else schemas[name]
+        else:  # group[ref] (a reference always states a version) vs. a bare name
+            cls = schemas[ref] if versioned else schemas.get(name, None)
         try:
             class Sub(cls):  # noqa
                 pass
